@@ -26,6 +26,8 @@ VOCAB = [
     # backslashes and backticks
     'c:\\dir', '\\n', 'a\\b', '\\1', '`', '``', 'a`b', '`x',
     # runs that mix the two underline characters, or an underline character with others: never a setext underline or a break
+    # a Unicode space after hashes: no heading
+    '#\u00a0tag', '##\u2003x', '#\u3000y',
     # digits of other scripts with a dot / parenthesis: no list marker
     '\u0661.', '\uff11.', '\u0967)', '\u0661\u0662.',
     # delimiter-row look-alikes: no table when the line above has no pipe (one cell against two)
